@@ -18,6 +18,7 @@ import TemporalModel.Lemmas.SafeLemmas
 import TemporalModel.Props.C06
 import TemporalModel.Props.C09
 import TemporalModel.Props.C18
+import TemporalModel.Model.EpochConv
 namespace TemporalModel
 open Out
 
@@ -381,6 +382,14 @@ theorem C02_year_month_results (y m : Int) (rd : Option Int) (ov : Overflow) (r 
 example : plainDateAdd ⟨275760, 9, 12⟩ ⟨0, 0, 0, 1, 0, 0, 0, 0, 0, 0⟩ .constrain = .ok ⟨275760, 9, 13⟩ := by decide
 example : plainDateAdd ⟨275760, 9, 13⟩ ⟨0, 0, 0, 1, 0, 0, 0, 0, 0, 0⟩ .constrain = .err .range := by decide
 
+/-- **C02 (epoch nanoseconds from numbers)**: `EpochNanoseconds::try_from` of an i128, of a u128 (any value up to
+    2^128 − 1: nothing wraps into range) and of an integral double returns the value itself when it lies inside the
+    instant range and a RangeError otherwise. -/
+theorem C02_epoch_ns_conversions (v : Int) :
+    (enFromI128 v = if -nsMaxInstant ≤ v ∧ v ≤ nsMaxInstant then .ok v else .err .range) ∧
+    (0 ≤ v → enFromU128 v = if -nsMaxInstant ≤ v ∧ v ≤ nsMaxInstant then .ok v else .err .range) ∧
+    (enFromF64 v = if -nsMaxInstant ≤ v ∧ v ≤ nsMaxInstant then .ok v else .err .range) := enFrom_spec v
+
 end TemporalModel
 
 #print axioms TemporalModel.C02_date_results
@@ -395,3 +404,4 @@ end TemporalModel
 #print axioms TemporalModel.C02_duration_boundary
 #print axioms TemporalModel.C02_year_month_boundary
 #print axioms TemporalModel.C02_year_month_results
+#print axioms TemporalModel.C02_epoch_ns_conversions
